@@ -1,4 +1,5 @@
 import LekkerVerif.Properties.C01
+import LekkerVerif.Properties.C01Checked
 import LekkerVerif.Properties.C02
 import LekkerVerif.Properties.C02Hier
 import LekkerVerif.Properties.C03
